@@ -42,8 +42,8 @@ Definition access_eqb (a b : access) : bool :=
      PCanon l   exactly "deny" / "read" / "list" / "write"   (the constants PolicyDeny ...)
      POdd l     any other spelling that strings.ToLower maps to one of them ("Deny", "WRITE")
      PBad       anything else ("foo").
-   AccessLevelFromString lowercases; takesPrecedenceOver and the intention defaulting compare
-   with == against the lowercase constants. *)
+   AccessLevelFromString, takesPrecedenceOver and the intention defaulting all lowercase before
+   comparing with the lowercase constants (the last two since commit e3d2ecc). *)
 Inductive pstr := PEmpty | PCanon (l : level) | POdd (l : level) | PBad.
 
 (* acl.AccessLevelFromString (None = error) *)
@@ -57,8 +57,15 @@ Definition access_level_from_string (p : pstr) : option access :=
 Definition is_const (p : pstr) (l : level) : bool :=
   match p with PCanon l' => level_eqb l l' | _ => false end.
 
-(* acl.takesPrecedenceOver *)
+(* strings.ToLower on a policy string ("FOO" becomes "foo": still none of the constants) *)
+Definition to_lower (p : pstr) : pstr :=
+  match p with POdd l => PCanon l | _ => p end.
+
+(* acl.takesPrecedenceOver: `a, b = strings.ToLower(a), strings.ToLower(b)`, then the chain of
+   comparisons with the lowercase constants *)
 Definition takes_precedence_over (a b : pstr) : bool :=
+  let a := to_lower a in
+  let b := to_lower b in
   if is_const a LDeny then true else if is_const b LDeny then false else
   if is_const a LWrite then true else if is_const b LWrite then false else
   if is_const a LList then true else if is_const b LList then false else
@@ -269,10 +276,12 @@ Definition set_tree (a : authorizer) (k : rkind) (t : tree) : authorizer :=
 Definition set_intention (a : authorizer) (t : tree) : authorizer :=
   Authorizer (a_acl a) (a_agent a) t (a_traffic a) (a_key a) (a_node a) (a_service a) (a_session a) (a_event a) (a_query a) (a_keyring a) (a_operator a) (a_mesh a) (a_peering a).
 
-(* the `intention := sp.Intentions; if intention == "" { switch sp.Policy {...} }` of loadRules *)
+(* the `intention := sp.Intentions; if intention == "" { switch strings.ToLower(sp.Policy) {...} }`
+   of loadRules *)
 Definition intention_of (pol int : pstr) : pstr :=
   match int with
-  | PEmpty => if is_const pol LRead || is_const pol LWrite then PCanon LRead else PCanon LDeny
+  | PEmpty => if is_const (to_lower pol) LRead || is_const (to_lower pol) LWrite
+              then PCanon LRead else PCanon LDeny
   | _ => int
   end.
 
